@@ -272,3 +272,60 @@ func IsDoneChan(v ssa.Value) (ctx ssa.Value, ok bool) {
 }
 
 func nilOf(v ssa.Value) ssa.Value { return ssa.NewConst(nil, v.Type()) }
+
+// IndependentOf: can `target` be reached from `from` whatever the outcomes of the given (foreign) branches are?
+// Every assignment of outcomes to those branches is tried (at most 2^8); it returns false with a description of the
+// first assignment under which the target is unreachable — i.e. the target is gated by some combination
+// (conjunction, disjunction, mixed) of the foreign conditions, which single-edge dominance tests do not see.
+func IndependentOf(from Pt, target ssa.Instruction, foreign []IfInfo, stop func(ssa.Instruction) bool) (bool, string) {
+	// one entry per If instruction
+	var ifs []IfInfo
+	seen := map[*ssa.If]bool{}
+	for _, ii := range foreign {
+		if !seen[ii.If] {
+			seen[ii.If] = true
+			ifs = append(ifs, ii)
+		}
+	}
+	if len(ifs) == 0 {
+		return true, ""
+	}
+	if len(ifs) > 8 {
+		ifs = ifs[:8]
+	}
+	for mask := 0; mask < 1<<len(ifs); mask++ {
+		type edge struct {
+			b *ssa.BasicBlock
+			s int
+		}
+		cut := map[edge]bool{}
+		for i, ii := range ifs {
+			// outcome bit: 1 → the branch goes to successor 0, so successor 1 is cut; 0 → the other way round
+			if mask&(1<<i) != 0 {
+				cut[edge{ii.If.Block(), 1}] = true
+			} else {
+				cut[edge{ii.If.Block(), 0}] = true
+			}
+		}
+		res := Reach([]Pt{from}, Opts{Stop: stop, EdgeOK: func(b *ssa.BasicBlock, s int) bool { return !cut[edge{b, s}] }})
+		if !res.Reached[target] && !res.Stopped[target] {
+			desc := ""
+			for i, ii := range ifs {
+				if desc != "" {
+					desc += ", "
+				}
+				out := "true"
+				if (mask&(1<<i) != 0) != ii.Pol {
+					out = "false"
+				}
+				if ii.Atom.V != nil {
+					desc += Path(ii.Atom.V) + "=" + out
+				} else {
+					desc += "(" + Path(ii.Atom.X) + " " + ii.Atom.Op.String() + " " + Path(ii.Atom.Y) + ")=" + out
+				}
+			}
+			return false, desc
+		}
+	}
+	return true, ""
+}
